@@ -514,3 +514,205 @@ def guarded_stats(E, blt, opts, r):
     if V.name != 'guarded': return []
     geps = max(1, 10 ** V.guard // 2)
     return [dict(kind='stats', detail='', sig=dict(maxDiff=V.maxDiff, minDiff=V.minDiff, geps=geps))]
+
+# ------------------------------------------------------------------ C05: Droop proportionality for solid coalitions
+def c05(E, blt, opts, r):
+    if r['status'] != 'ok': return []
+    rule = rule_name(E); V = E.V
+    if rule == 'mpls' and E.electionProfile.undeclared: return []
+    if E.ballotsEqual: return []
+    acts = snaps(E)
+    if not acts: return []
+    first = [a for a in acts if a['tag'] in ('begin', 'count')]
+    if not first: return []
+    quota = fv(E, first[0]['quota'])
+    if rule == 'qpq':
+        quota = Fraction(E.nBallots, E.nSeats + 1)      # QPQ's own initial quota va/(1+s)
+    S = scale_of(E)
+    elig = [c.cid for c in E.C if c.state != 'withdrawn']
+    n = len(elig)
+    if n > 9: return []
+    allowance = Fraction(0) if S is None else Fraction(2 * E.nBallots * len(elig), S)
+    elected = set(c.cid for c in E.elected)
+    out = []
+    ballots = [(int(fv(E, b.multiplier)), list(b.ranking)) for b in E.ballots]
+    for size in range(1, n + 1):
+        for Sset in itertools.combinations(elig, size):
+            ss = set(Sset)
+            G = sum(m for m, rk in ballots if len(rk) >= size and set(rk[:size]) == ss)
+            if G == 0: continue
+            # largest k with G > k*quota + allowance
+            k = 0
+            while G > (k + 1) * quota + allowance: k += 1
+            if k == 0: continue
+            need = min(k, size)
+            got = len(elected & ss)
+            if got < need:
+                sig = arith_sig(E)
+                sig['after_stable_exit'] = any(a['msg'] == 'Iterate (stable)' for a in acts)
+                out.append(V_('c05-coalition', "coalition %s is ranked first by %d ballots > %d quotas (quota %s, allowance %s) but only %d of its members are elected %s"
+                              % (sorted(ss), G, k, quota, allowance, got, sorted(elected)), **sig))
+                return out
+    return out
+
+# ------------------------------------------------------------------ C10: presentation independence (metamorphic)
+def _renderings(blt, opts):
+    import count_driver as cd
+    r = cd.impl_count(blt, opts, timeout=20, want_E=True)
+    if 'E' not in r or r['status'] != 'ok': return r['status'], None
+    E = r['E']
+    return 'ok', (cd.project(r['trace'], 'record'), E.report(), E.dump())
+
+def c10(E, blt, opts, r):
+    """re-present the same election: shuffled ballot lines, split/merged multipliers, layout, comments, nicknames"""
+    if r['status'] != 'ok': return []
+    import random, re
+    rng = random.Random(hash(blt) & 0xffffffff)
+    p = E.electionProfile
+    n = p.nCand
+    lines = [(b.multiplier, [[c] for c in b.ranking]) for b in p.ballotLines] + \
+            [(b.multiplier, [list(rk) for rk in b.ranking]) for b in p.ballotLinesEqual]
+    # split / merge multipliers, then shuffle -- equal-rank and strict ballots stay in their own lists in the
+    # implementation, so only the order within the file changes
+    new = []
+    for m, rk in lines:
+        if m > 1 and rng.random() < 0.5:
+            a = rng.randint(1, m - 1); new.append((a, rk)); new.append((m - a, rk))
+        else:
+            new.append((m, rk))
+    # merge identical adjacent after sorting some
+    if rng.random() < 0.5:
+        merged = {}
+        order = []
+        for m, rk in new:
+            key = json_key(rk)
+            if key not in merged: merged[key] = [0, rk]; order.append(key)
+            merged[key][0] += m
+        new = [(merged[k][0], merged[k][1]) for k in order]
+    rng.shuffle(new)
+    use_nick = rng.random() < 0.5
+    nicks = ['n%s' % chr(97 + i % 26) + str(i) for i in range(n)]
+    def ref(c): return nicks[c - 1] if use_nick else str(c)
+    ws = [' ', '  ', '\t', '\n', ' \n ', '\r\n']
+    def sep(): return rng.choice(ws)
+    toks = ['%d' % n, '%d' % p.nSeats]
+    if use_nick: toks.append('[nick %s]' % ' '.join(nicks))
+    tie = sorted(p.tieOrder, key=lambda c: p.tieOrder[c])
+    toks.append('[tie %s]' % ' '.join(ref(c) for c in tie))
+    for w in sorted(p.withdrawn):
+        toks.append('-%d' % w)
+    if p.undeclared: toks.append('[undeclared %s]' % ' '.join(ref(c) for c in sorted(p.undeclared)))
+    if p.options: toks.append('[droop %s]' % ' '.join(p.options))
+    for m, rk in new:
+        toks.append(str(m))
+        for rank in rk:
+            toks.append('='.join(ref(c) for c in rank))
+        toks.append('0')
+        if rng.random() < 0.3: toks.append('# a comment 1 2 3\n')
+        if rng.random() < 0.2: toks.append('/* nested /* comment */ 0 */')
+    toks.append('0')
+    for c in range(1, n + 1): toks.append('"%s"' % p.candidateName[c])
+    toks.append('"%s"' % p.title)
+    if p.source: toks.append('"%s"' % p.source)
+    if p.comment: toks.append('"%s"' % p.comment)
+    blt2 = ''.join(t + (sep() if not t.endswith('\n') else '') for t in toks)
+    s1, a = _renderings(blt, opts)
+    s2, b = _renderings(blt2, opts)
+    if s1 != 'ok' or s2 != 'ok':
+        if s1 != s2 and 'timeout' not in (s1, s2):
+            return [V_('c10-presentation', "re-presented file is counted with status %s instead of %s\n%s" % (s2, s1, blt2), **arith_sig(E))]
+        return []
+    out = []
+    if not use_nick:
+        names = ('record', 'report', 'dump')
+    else:
+        names = ('record', 'report', 'dump')   # nicknames appear in none of the three (cdict nick is in JSON only)
+    def nostats(t):
+        return "\n".join(l for l in t.split("\n") if not l.startswith(("\tmaxDiff:", "\tminDiff:")))
+    for nm, x, y in zip(names, a, b):
+        if x != y:
+            import count_driver as cd
+            sig = arith_sig(E)
+            # the Guarded comparison statistics printed in the report are the only difference?
+            sig['only_guarded_statistics'] = all(nostats(u) == nostats(v) for u, v in zip(a, b))
+            out.append(V_('c10-presentation', "%s differs between two presentations of the same ballots: %s\n--- second presentation:\n%s" %
+                          (nm, cd.first_diff(x, y), blt2), **sig))
+            break
+    return out
+
+def json_key(rk):
+    return tuple(tuple(x) for x in rk)
+
+# ------------------------------------------------------------------ C11: neutrality (metamorphic)
+def c11(E, blt, opts, r):
+    if r['status'] != 'ok': return []
+    import random, count_driver as cd
+    rng = random.Random((hash(blt) >> 3) & 0xffffffff)
+    p = E.electionProfile
+    n = p.nCand
+    out = []
+    def build(perm, drop=()):
+        """perm: old cid -> new cid (1..n'), candidates in `drop` are deleted"""
+        keep = [c for c in range(1, n + 1) if c not in drop]
+        inv = {perm[c]: c for c in keep}
+        m = len(keep)
+        toks = ['%d %d' % (m, p.nSeats)]
+        tie = sorted(keep, key=lambda c: p.tieOrder[c])
+        toks.append('[tie %s]' % ' '.join(str(perm[c]) for c in tie))
+        for w in sorted(p.withdrawn):
+            if w not in drop: toks.append('-%d' % perm[w])
+        und = [c for c in sorted(p.undeclared) if c not in drop]
+        if und: toks.append('[undeclared %s]' % ' '.join(str(perm[c]) for c in und))
+        for b in p.ballotLines:
+            rk = [perm[c] for c in b.ranking if c not in drop]
+            if rk: toks.append('%d %s 0' % (b.multiplier, ' '.join(map(str, rk))))
+        for b in p.ballotLinesEqual:
+            rk = [[perm[c] for c in rank if c not in drop] for rank in b.ranking]
+            rk = [x for x in rk if x]
+            if rk: toks.append('%d %s 0' % (b.multiplier, ' '.join('='.join(map(str, x)) for x in rk)))
+        toks.append('0')
+        toks.append(' '.join('"%s"' % p.candidateName[inv[i]] for i in range(1, m + 1)))
+        toks.append('"%s"' % p.title)
+        return '\n'.join(toks) + '\n'
+    # (1) renumbering
+    ids = list(range(1, n + 1)); sh = ids[:]; rng.shuffle(sh)
+    perm = dict(zip(ids, sh))
+    blt2 = build(perm)
+    r2 = cd.impl_count(blt2, opts, timeout=20, want_E=True)
+    if r2['status'] == 'ok':
+        E2 = r2['E']
+        w1 = sorted(c.name for c in E.elected); w2 = sorted(c.name for c in E2.elected)
+        t1 = sorted((c.name, str(c.vote)) for c in E.C if c.state != 'withdrawn')
+        t2 = sorted((c.name, str(c.vote)) for c in E2.C if c.state != 'withdrawn')
+        if w1 != w2:
+            out.append(V_('c11-renumbering', "winners by name change under renumbering %s: %s vs %s" % (perm, w1, w2), **arith_sig(E)))
+        elif t1 != t2:
+            out.append(V_('c11-renumbering', "final tallies by name change under renumbering %s: %s vs %s" % (perm, t1, t2), **arith_sig(E)))
+    elif r2['status'] != 'timeout':
+        out.append(V_('c11-renumbering', "renumbered election ends with status %s" % r2['status'], **arith_sig(E)))
+    # (2) withdrawn == deleted
+    if p.withdrawn:
+        keep = [c for c in range(1, n + 1) if c not in p.withdrawn]
+        perm2 = {c: i + 1 for i, c in enumerate(keep)}
+        blt3 = build(perm2, drop=set(p.withdrawn))
+        r3 = cd.impl_count(blt3, opts, timeout=20, want_E=True)
+        if r3['status'] == 'ok':
+            def byname(Ex):
+                cd_ = {c.cid: c.name for c in Ex.C}
+                rows = []
+                for a in Ex.erecord['actions']:
+                    if a['tag'] == 'log':
+                        if a['msg'].startswith('Add withdrawn'): continue
+                        rows.append((a['tag'], a['msg'], a['round'])); continue
+                    cs = tuple(sorted((cd_[cid], c['state'], c.get('pending'), str(c.get('vote')), str(c.get('kf')), str(c.get('quotient')))
+                                      for cid, c in a['cstate'].items() if c['state'] != 'withdrawn'))
+                    rows.append((a['tag'], a['msg'], a['round'], str(a['quota']), str(a['votes']), cs))
+                return rows
+            x, y = byname(E), byname(r3['E'])
+            if x != y:
+                k = next((i for i, (u, v) in enumerate(zip(x, y)) if u != v), min(len(x), len(y)))
+                out.append(V_('c11-withdrawn', "withdrawing %s is not the same as deleting them: first difference at action %d: %r vs %r" %
+                              (sorted(p.withdrawn), k, x[k] if k < len(x) else None, y[k] if k < len(y) else None), **arith_sig(E)))
+        elif r3['status'] != 'timeout':
+            out.append(V_('c11-withdrawn', "election with withdrawn candidates deleted ends with status %s" % r3['status'], **arith_sig(E)))
+    return out
